@@ -2050,9 +2050,9 @@ let kind_of s c =
   | Some k -> k
   | None -> { ck_rel = false; ck_zs = false; ck_triv = true }
 
-(** val create_archetype : mask0 -> nat mW **)
+(** val create_archetype_bare : mask0 -> nat mW **)
 
-let create_archetype m0 =
+let create_archetype_bare m0 =
   bind get (fun s ->
     let comps = mk_to_list m0 (length s.w_reg) in
     let index = length s.w_archs in
@@ -2136,14 +2136,6 @@ let create_archetype m0 =
                   w_queries = x.w_queries; w_res = x.w_res; w_issued =
                   x.w_issued; w_log = x.w_log })) (fun l -> app l (a :: []))
                   s)))))) (fun _ -> ret index))
-
-(** val find_or_create_arch : mask0 -> nat mW **)
-
-let find_or_create_arch m0 =
-  bind get (fun s ->
-    match find_arch s m0 with
-    | Some i -> ret i
-    | None -> create_archetype m0)
 
 (** val new_table :
     nat -> arch -> ckind list -> nat -> ent list -> rel list -> table **)
@@ -2278,6 +2270,24 @@ let create_table aid rels =
                     bind (modA aid (fun a0 -> arch_add_table a0 tid t))
                       (fun _ ->
                       bind (cache_add_table tid t a.a_mask) (fun _ -> ret tid)))))))))))
+
+(** val create_archetype : mask0 -> nat mW **)
+
+let create_archetype m0 =
+  bind (create_archetype_bare m0) (fun aid ->
+    bind (getA aid) (fun a ->
+      bind
+        (if Nat.eqb a.a_numrel O
+         then bind (create_table aid []) (fun _ -> ret ())
+         else ret ()) (fun _ -> ret aid)))
+
+(** val find_or_create_arch : mask0 -> nat mW **)
+
+let find_or_create_arch m0 =
+  bind get (fun s ->
+    match find_arch s m0 with
+    | Some i -> ret i
+    | None -> create_archetype m0)
 
 (** val get_or_create_table : nat -> rel list -> nat mW **)
 
